@@ -29,8 +29,9 @@ func schemeOf(mode string) string {
 
 var paths = []string{"cold", "cache", "batch"}
 
-// pathsWarm adds the block path over a signature cache that already holds the untampered original
-var pathsWarm = []string{"cold", "cache", "batch", "batch-warm"}
+// pathsWarm adds the block path over a signature cache that already holds the untampered original, and
+// the block path followed by second presentations of the same bytes with the caches left alone
+var pathsWarm = []string{"cold", "cache", "batch", "batch-warm", "batch-repeat"}
 
 type runner struct {
 	o     *drv.Out
@@ -48,6 +49,7 @@ type runner struct {
 	decl  map[string]bool
 	fails map[string]bool
 	rot   int
+	rep   int
 	// mustReject: oracle signature to fail with when a transaction of the current family is accepted
 	mustReject string
 	// sigSuffix is appended to tampered-tx-accepted signatures of the current family
@@ -93,6 +95,7 @@ type outcome struct {
 	post   *snap
 	pre    *snap
 	note   string // path-specific oracle complaint
+	second bool   // refused at first, accepted when the same bytes were presented again
 }
 
 func (r *runner) cold(bz []byte) outcome {
@@ -198,6 +201,53 @@ func (r *runner) batchWarm(bz, warm []byte) outcome {
 		}
 	})
 	return oc
+}
+
+// batchRepeat: the block path twice in the same process with the caches left alone in between: the
+// candidate in a block (cold cache), then the SAME bytes again — alone through ApplyTransaction and
+// inside a second block. Whatever a first, failed verification leaves behind must not make a later
+// presentation of the same bytes pass. The outcome returned is the first acceptance, if any.
+func (r *runner) batchRepeat(bz []byte) outcome {
+	first := r.batchWarm(bz, nil)
+	var alone outcome
+	alone.pre = r.base
+	r.w.inTxn(func() {
+		res, _, err := r.w.sm.ApplyTransaction(0, bz, crypto.HashString(bz), nil)
+		alone.err = err
+		if err == nil {
+			alone.sender = res.Sender
+			alone.post = r.w.scan()
+		}
+	})
+	var again outcome
+	again.pre = r.bbase
+	r.w.inTxn(func() {
+		txs := append([][]byte{bz}, r.fill...)
+		txs = append(txs, r.bad)
+		errs, senders, berr := r.applyBlock(txs)
+		if berr != nil {
+			again.err = berr
+			r.honestBlockRefused("second presentation: candidate, seven valid ed25519 sends, one ed25519 send with a bad signature", berr, txs)
+			return
+		}
+		again.err, again.sender = errs[0], senders[0]
+		if again.err == nil {
+			again.post = r.w.scan()
+		}
+	})
+	if first.err != nil {
+		for _, o := range []outcome{alone, again} {
+			if o.err == nil {
+				o.note = "" // reported by the caller's oracle with the dedicated signature
+				o.second = true
+				return o
+			}
+		}
+	}
+	if errStr(alone.err) != errStr(first.err) || errStr(again.err) != errStr(first.err) {
+		first.note = fmt.Sprintf("first presentation in a block answered %s, the same bytes alone %s, in a second block %s", errStr(first.err), errStr(alone.err), errStr(again.err))
+	}
+	return first
 }
 
 func (r *runner) prepareBatch() {
@@ -354,6 +404,10 @@ func (r *runner) oracle(path, label string, tx *lib.Transaction, bz []byte, oc o
 		return
 	}
 	replay := map[string]any{"tx": drv.Hex(bz), "case": r.o.CurCase(), "label": label, "path": path, "diff": d.line()}
+	if oc.second {
+		r.fail("C05:unauthorized-state-change:accepted-on-second-presentation", fmt.Sprintf("%s %s: refused when first presented in a block, EXECUTED when the same bytes were presented again in the same process (caches untouched): %s",
+			r.o.CurCase(), label, d.line()), replay)
+	}
 	if r.mustReject != "" {
 		r.fail(r.mustReject, fmt.Sprintf("%s %s: accepted (%s path) although it must be refused: %s", r.o.CurCase(), label, path, d.line()), replay)
 	}
@@ -460,8 +514,16 @@ func (r *runner) offer(label string, tx *lib.Transaction, tampered string, warm 
 	if warm == nil {
 		warm = bz
 	}
-	var results []string
+	var results, used []string
 	for _, path := range pathSel {
+		if path == "batch-repeat" && r.o.Tier != "thorough" && r.mode != "ed25519" {
+			// quick: second presentations for every ed25519 case (the key type with a real batch equation and
+			// cache short-cuts in its lane) and for a rotating quarter of the others
+			r.rep++
+			if r.rep%4 != 0 {
+				continue
+			}
+		}
 		var oc outcome
 		switch path {
 		case "cold":
@@ -472,6 +534,8 @@ func (r *runner) offer(label string, tx *lib.Transaction, tampered string, warm 
 			oc = r.batch(bz)
 		case "batch-warm":
 			oc = r.batchWarm(bz, warm)
+		case "batch-repeat":
+			oc = r.batchRepeat(bz)
 		}
 		res := errStr(oc.err)
 		d := &diff{}
@@ -481,6 +545,7 @@ func (r *runner) offer(label string, tx *lib.Transaction, tampered string, warm 
 		}
 		r.o.Op(fmt.Sprintf("tx %s %s %s %s %s", path, cid, pkTok, sTok, newOrder), res)
 		results = append(results, res)
+		used = append(used, path)
 		r.oracle(path, label, tx, bz, oc, tampered, d)
 		cls := "reject"
 		if oc.err == nil {
@@ -498,7 +563,7 @@ func (r *runner) offer(label string, tx *lib.Transaction, tampered string, warm 
 	}
 	for i := 1; i < len(results); i++ {
 		if results[i] != results[0] {
-			r.fail("C05:path-divergence:"+pathSel[i], fmt.Sprintf("%s %s: %s path answered %q, %s path answered %q", r.o.CurCase(), label, pathSel[0], results[0], pathSel[i], results[i]),
+			r.fail("C05:path-divergence:"+used[i], fmt.Sprintf("%s %s: %s path answered %q, %s path answered %q", r.o.CurCase(), label, used[0], results[0], used[i], results[i]),
 				map[string]any{"tx": drv.Hex(bz)})
 		}
 	}
